@@ -13,6 +13,10 @@ def subharnesses(tier):
             subs.append(('ldap-app-%s-others_%s' % (vary, others),
                          {'kind': 'ldap', 'obj': 'app', 'vary': vary,
                           'others': others}))
+    for n in (10, 11, 17):
+        subs.append(('ldap-app-long-lists-%d' % n,
+                     {'kind': 'ldap', 'obj': 'app', 'vary': 'none',
+                      'others': 'absent', 'long': n}))
     subs.append(('ldap-cellalloc', {'kind': 'ldap', 'obj': 'cellalloc'}))
     subs.append(('ldap-partition', {'kind': 'ldap', 'obj': 'partition'}))
     return subs
@@ -115,6 +119,18 @@ def harness(S, spec):
             eps.append(ep)
         if eps:
             obj['endpoints'] = eps
+        if spec.get('long'):
+            n = spec['long']
+            which = S.choice('long_list', 3)
+            if which == 0:
+                obj['endpoints'] = [{'name': 'ep%02d' % k, 'port': 1000 + k}
+                                    for k in range(n)]
+            elif which == 1:
+                obj['environ'] = [{'name': 'V%02d' % k, 'value': str(k)}
+                                  for k in range(n)]
+            else:
+                obj['services'] = [{'name': 's%02d' % k, 'command': '/c%d' % k}
+                                   for k in range(n)]
         if opt('has_environ', 'nested'):
             obj['environ'] = [{'name': 'B', 'value': '2'},
                               {'name': 'A', 'value': ''}][:1 + pick(
